@@ -941,6 +941,100 @@ section Round4Feat
 open Mahotas.C10Feat
 -- (theorems of this package go between this line and the `end`)
 
+/-- **C10, `_histogram.cpp: otsu(hist, n)`.** For EVERY `n` (0, 1 and negative included: no access, result 0) and every outcome of
+the floating-point tests (`Hsum == 0`, `nB[T] == 0` → `continue`, `nO[T] == 0` → `break`, `sigma_between > best`): every `hist[i]`,
+`nB[i]`, `nB[i-1]`, `nB[n-1]`, `nO[i]`, `nO[T-1]` is inside its `n` cells (`nB`, `nO` are `resize(n)`), and the threshold returned
+is `0` for `n ≤ 1` and lies in `[0, n)` otherwise (a valid bin of the histogram). -/
+theorem C10_otsu_in_bounds (n : Int) (hz : Bool) (nbz noz better : Nat → Bool) :
+    allOk (otsuRun n hz nbz noz better).1 = true ∧
+      (n ≤ 1 → (otsuRun n hz nbz noz better).2 = 0) ∧ (2 ≤ n → ((otsuRun n hz nbz noz better).2 : Int) < n) :=
+  otsuRun_ok n hz nbz noz better
+
+example : ((otsuRun 4 false (fun _ => false) (fun t => t == 3) (fun t => t == 2)).1.length,
+           (otsuRun 4 false (fun _ => false) (fun t => t == 3) (fun t => t == 2)).2) = (53, 2) := by decide
+/-- reading `nB[T-1]` for `T = 0` (a loop started at 0 instead of 1) would leave the vector -/
+example : (FAcc.mk (0 - 1) 4).ok = false := by decide
+
+/-- **C10, `_zernike.cpp: fact(k)`.** For every `k ≥ 0` the recursion `double(k) * fact(k-1)` ends (`max(0, k-12)` calls deep) at ONE
+access `_factorialtable[k']` inside the table as extracted from the source (`Generated.factorialTable`, 13 entries). For `k < 0`
+the recursion never reaches the table (`unsigned(k) ≥ 13`): no amount of fuel suffices — in C a stack overflow, reachable only
+by calling `_zernike.znl` directly with `l > n` or `n < 0` (see `C11_znl_safe`). -/
+theorem C10_znl_fact_in_bounds (k : Int) :
+    (0 ≤ k → ∀ fuel : Nat, k < fuel → ∃ r, factRun fuel k = some r ∧ r.1.ok = true ∧ r.1.size = 13 ∧
+        (r.2 : Int) = max 0 (k - 12)) ∧
+    (k < 0 → ∀ fuel : Nat, factRun fuel k = none) := by
+  refine ⟨fun h0 fuel hf => ?_, fun hk fuel => factRun_neg fuel k hk⟩
+  obtain ⟨r, hr, hok, hd⟩ := factRun_nonneg fuel k h0 hf
+  have hlen : factTableLen = 13 := by decide
+  have hsz : ∀ (f : Nat) (k : Int) (r : FAcc × Nat), factRun f k = some r → r.1.size = factTableLen := by
+    intro f
+    induction f with
+    | zero => intro k r h; simp [factRun] at h
+    | succ f ih =>
+      intro k r h
+      simp only [factRun] at h
+      split at h
+      · simp only [Option.some.injEq] at h; subst h; rfl
+      · simp only [Option.map_eq_some_iff] at h
+        obtain ⟨q, hq, rfl⟩ := h
+        exact ih _ q hq
+  refine ⟨r, hr, ?_, by rw [hsz _ _ _ hr, hlen], by rw [hd, hlen]; rfl⟩
+  simp only [FAcc.ok, Bool.and_eq_true, decide_eq_true_eq]
+  exact hok
+
+example : factRun 20 15 = some (⟨12, 13⟩, 3) ∧ factRun 20 0 = some (⟨0, 13⟩, 0) ∧ factRun 20 (-1) = none := by decide
+
+/-- **C10, `_zernike.cpp: py_znl`.** For `0 ≤ l ≤ n` (what `zernike_moments` passes: `C11_zernike_loop_pre`), any parity of `n - l`,
+`Nelems = SIZE(Da)` elements and arrays `Aa`, `Pa` with at least as many elements (the wrapper passes three arrays of one shape; the
+entry point does not compare them): every `fact` call of the coefficient loop `m = 0 … (n-l)/2` comes back and reads inside the
+factorial table, every `g_m[m]` is inside the `(n-l)/2 + 1` cells of the scratch array (filling loop and element loop), every
+`D[i]`, `A[i]`, `P[i]` is inside its array. -/
+theorem C10_znl_in_bounds (fuel : Nat) (n l : Int) (nd na np : Nat) (hl0 : 0 ≤ l) (hln : l ≤ n) (hn : n < fuel)
+    (ha : nd ≤ na) (hp : nd ≤ np) :
+    allOk (znlRun fuel n l nd na np).1 = true ∧ (znlRun fuel n l nd na np).2 = true :=
+  znlRun_ok fuel n l nd na np hl0 hln hn ha hp
+
+example : (znlRun 100 8 2 3 3 3).2 = true ∧ allOk (znlRun 100 8 2 3 3 3).1 = true ∧ (znlRun 100 8 2 3 3 3).1.length = 41 := by decide
+/-- `n < 0` (direct call only): `fact(-1)` does not come back; a shorter `Pa`: `P[i]` leaves the array -/
+example : (znlRun 20 (-1) 0 1 1 1).2 = false ∧ allOk (znlRun 20 4 2 3 3 2).1 = false := by decide
+
+/-- **C10, the paired scans `_labeled.cpp: is_same_labeling` and `_morph.cpp: subm`.** `for (p = 0; p < N; ++p) … a[p] … b[p] …` with
+`N` = the size of the FIRST array: the complete scan stays inside both buffers IF AND ONLY IF the second array has at least `N`
+elements — `subm` checks `same_shape(a, b)` itself; `is_same_labeling` has NO native size test and relies on the wrapper's
+`labeled0.shape != labeled1.shape → return False`. With enough elements every prefix of the scan (the early `return false` of
+`is_same_labeling`) is inside as well. -/
+theorem C10_pair_scan_in_bounds (na nb : Nat) :
+    (allOk (pairScan na nb none) = true ↔ na ≤ nb) ∧
+    (na ≤ nb → ∀ stop : Option Nat, allOk (pairScan na nb stop) = true) :=
+  ⟨pairScan_ok_iff na nb, fun h stop => pairScan_ok na nb stop h⟩
+
+example : allOk (pairScan 4 4 none) = true ∧ allOk (pairScan 4 3 none) = false ∧ (pairScan 4 3 (some 1)).length = 4 := by decide
+
+/-- **C10, `_morph.cpp: py_disk_2d`.** For every `N0 × N1` C-contiguous bool array (zero-length axes included) and EVERY `radius`
+(also values whose square wraps in `int`: the comparison then merely selects other cells): each store `*iter = true` is at
+offset `x0*N1 + x1` inside the `N0*N1` cells. -/
+theorem C10_disk_2d_in_bounds (n0 n1 : Nat) (radius : Int) : allOk (diskStores n0 n1 radius) = true :=
+  diskStores_ok n0 n1 radius
+
+example : (diskStores 5 5 2).map (·.i) = [6, 7, 8, 11, 12, 13, 16, 17, 18] ∧ diskStores 0 7 3 = [] := by decide
+
+/-- **C10 (B9), SURF `compute_dominant_angle`: the window over the sorted samples** (the item left open in round 3). For every
+number of samples `Nsamples ≥ 1` and EVERY outcome of `between_angles` (any angles, NaN included): `samples[0]`, every
+`samples[j]` of the first loop (`j != Nsamples` tested first), every `samples[i]`, `samples[j]` of the update loop — where `j`
+advances circularly (`++j; if (j == Nsamples) j = 0`) — is inside the vector; each `while (j != i && …)` ends within `Nsamples`
+rounds (the circular distance from `j` to `i` decreases), so the function returns; after a non-early return `j < Nsamples`.
+The sampling loops always collect exactly 109 samples (`r*r + c*c < 36`, `-6 ≤ r, c ≤ 6`). -/
+theorem C10_surf_dominant_angle_in_bounds (ns : Nat) (btw : Nat → Nat → Bool) (hns : 1 ≤ ns) :
+    allOk (angleRun ns btw).1 = true ∧ (angleRun ns btw).2.2.2 = true ∧
+      ((angleRun ns btw).2.1 = false → (angleRun ns btw).2.2.1 < ns) ∧ angleSampleCount = 109 := by
+  obtain ⟨h1, h2, h3⟩ := angleRun_ok ns btw hns
+  exact ⟨h1, h2, h3, by decide⟩
+
+/-- non-vacuity: 4 samples, every pair "between": the first loop takes everything (early return); nothing between: the update loop
+runs with `j` parked; all but one: `j` wraps around; an empty sample vector (impossible: 109) would make `samples[0]` leave it -/
+example : (angleRun 4 (fun _ _ => true)).2.1 = true ∧ (angleRun 4 (fun _ _ => false)).2 = (false, 1, true) ∧
+    (angleRun 4 (fun i j => !(i == 0 && j == 3))).2 = (false, 3, true) ∧ allOk (angleRun 0 (fun _ _ => false)).1 = false := by decide
+
 end Round4Feat
 -- ---------------------------------------------------------------------------------------------------------
 
